@@ -440,6 +440,48 @@ INVALID_BODIES = {
 }
 TWO_ARGS = "macro two_args($a, $b) {\n    x($a, $b);\n}\n"
 
+# closed, valid constructs that may precede an offending statement (in the same routine or in an earlier one): what was
+# opened and closed before must not make a stray control statement, label reference or macro call acceptable
+PREFIXES = {
+    "nothing": "",
+    "forever": "forever { p1(); if ($P == 1) { break_loop; } }",
+    "while": "while ($P == 1) { p1(); continue; }",
+    "while_not": "while not ($P == 1) { p1(); }",
+    "while_not_break": "while not ($P < 2) { p1(); if (debug) { break_loop; } }",
+    "for": "for (p0(); $P < 3; p2();) { p1(); }",
+    "nested_loops": "forever { while not ($Q == 1) { p1(); } break_loop; }",
+    "switch_break": "switch ($P) { case 1: p1(); break; default: p2(); break; }",
+    "switch_fall": "switch (random(3)) { case 1: case 2: p1(); default: p2(); }",
+    "message_switch": "message_SwitchTalk ($P) { case 1: 'a' default: 'b' }",
+    "if_else": "if ($P == 1) { p1(); } elseif not ($P[2]) { p2(); } else { p3(); }",
+    "with": "with (actor 2) { p1(); }",
+    "label_jump": "@known; p1(); if ($P == 1) { jump @known; }",
+    "macro_call": "~fine(1);",
+    "macro_with_loop": "~loops();",
+}
+PREFIX_MACROS = "macro fine($a) {\n    f($a);\n}\nmacro loops() {\n    while not ($M == 1) {\n        l();\n    }\n    forever {\n        break_loop;\n    }\n    switch ($M) {\n        case 1:\n            l();\n            break;\n    }\n}\n"
+
+# closed, valid constructs that may precede an offending statement (in the same routine or in an earlier one): what was
+# opened and closed before must not make a stray control statement, label reference or macro call acceptable
+PREFIXES = {
+    "nothing": "",
+    "forever": "forever { p1(); if ($P == 1) { break_loop; } }",
+    "while": "while ($P == 1) { p1(); continue; }",
+    "while_not": "while not ($P == 1) { p1(); }",
+    "while_not_break": "while not ($P < 2) { p1(); if (debug) { break_loop; } }",
+    "for": "for (p0(); $P < 3; p2();) { p1(); }",
+    "nested_loops": "forever { while not ($Q == 1) { p1(); } break_loop; }",
+    "switch_break": "switch ($P) { case 1: p1(); break; default: p2(); break; }",
+    "switch_fall": "switch (random(3)) { case 1: case 2: p1(); default: p2(); }",
+    "message_switch": "message_SwitchTalk ($P) { case 1: 'a' default: 'b' }",
+    "if_else": "if ($P == 1) { p1(); } elseif not ($P[2]) { p2(); } else { p3(); }",
+    "with": "with (actor 2) { p1(); }",
+    "label_jump": "@known; p1(); if ($P == 1) { jump @known; }",
+    "macro_call": "~fine(1);",
+    "macro_with_loop": "~loops();",
+}
+PREFIX_MACROS = "macro fine($a) {\n    f($a);\n}\nmacro loops() {\n    while not ($M == 1) {\n        l();\n    }\n    forever {\n        break_loop;\n    }\n    switch ($M) {\n        case 1:\n            l();\n            break;\n    }\n}\n"
+
 VALID_BODIES = {
     # accepted shapes that must keep being answered (success or a documented exception) wherever they sit
     "posmark_macro_called_from_macro": None,  # built specially
@@ -511,6 +553,28 @@ def c10_worlds(rng: random.Random) -> list[dict]:
         W(f"{nm}@macro_file_depth_2", {M: 'import "lib/d1.exps";\ndef 0 {\n    ~viad1();\n    end;\n}\n',
                                        "/proj/macros/lib/d1.exps": 'import "../../SCRIPT/d2.exps";\nmacro viad1() {\n    ~bad();\n}\n',
                                        "/proj/SCRIPT/d2.exps": extra + _wrap(body, "macro")}, lookup=["/proj/macros"])
+    # offending statements after a closed, valid construct - in the same routine and in a later routine
+    for nm, body in INVALID_BODIES.items():
+        if nm == "syntax_error":
+            continue
+        extra = (TWO_ARGS if nm == "too_few_macro_arguments" else "") + PREFIX_MACROS
+        for pn, prefix in PREFIXES.items():
+            if pn == "nothing":
+                continue
+            W(f"{nm}@after_{pn}", {M: extra + f"def 0 {{\n    {prefix}\n    {body}\n    end;\n}}\n"})
+            W(f"{nm}@routine_after_{pn}", {M: extra + f"def 0 {{\n    {prefix}\n    end;\n}}\ndef 1 {{\n    {body}\n    end;\n}}\n"})
+            W(f"{nm}@macro_after_{pn}", {M: extra + f"macro bad() {{\n    {prefix}\n    {body}\n}}\ndef 0 {{\n    ~bad();\n    end;\n}}\n"})
+    # the valid prefixes themselves must stay accepted
+    for pn, prefix in PREFIXES.items():
+        W(f"valid_prefix_{pn}", {M: PREFIX_MACROS + f"def 0 {{\n    {prefix}\n    ok();\n    end;\n}}\n"}, expect="accept")
+    # recursive macros whose names also exist in an imported file (the import must not hide the cycle)
+    lib_helper = "macro helper() {\n    lib_op();\n}\nmacro pong() {\n    lib_pong();\n}\n"
+    W("macro_self_recursion_name_also_imported", {M: 'import "./lib.exps";\nmacro helper() {\n    main_op();\n    ~helper();\n}\ndef 0 {\n    ~helper();\n    end;\n}\n',
+                                                  "/proj/SCRIPT/lib.exps": lib_helper})
+    W("macro_mutual_recursion_name_also_imported", {M: 'import "./lib.exps";\nmacro ping() {\n    ~pong();\n}\nmacro pong() {\n    ~ping();\n}\ndef 0 {\n    ~ping();\n    end;\n}\n',
+                                                    "/proj/SCRIPT/lib.exps": lib_helper})
+    W("macro_recursion_through_imported_name_depth_2", {M: 'import "./d1.exps";\nmacro helper() {\n    ~helper();\n}\n' + VALID_MAIN,
+                                                        "/proj/SCRIPT/d1.exps": 'import "./lib.exps";\nmacro d1m() {\n    ~helper();\n}\n', "/proj/SCRIPT/lib.exps": lib_helper})
     # recursive macros across files (the cycle is only visible after imports are merged)
     W("macro_self_recursion@main", {M: "macro r() {\n    ~r();\n}\n" + VALID_MAIN})
     W("macro_mutual_recursion@main", {M: "macro ra() {\n    ~rb();\n}\nmacro rb() {\n    ~ra();\n}\n" + VALID_MAIN})
